@@ -98,3 +98,26 @@ def read_int16(path, nc):
     if a.size % nc:
         return a      # caller notices the wrong size
     return a.reshape(-1, nc)
+
+
+def round_duration(meta_file, ns, fs, rng):
+    """rewrite fileTimeSecs with a limited number of decimals, as acquisition software does (the sample count it stands for is unchanged:
+    round(t * fs) == ns); returns the text written"""
+    meta_file = Path(meta_file)
+    for dec in rng.permutation([2, 3, 4, 5, 6]).tolist():
+        t = round(ns / fs, int(dec))
+        if int(round(t * fs)) == ns and t > 0:
+            txt = f"{t:.{int(dec)}f}".rstrip("0").rstrip(".")
+            meta_file.write_text("".join((f"fileTimeSecs={txt}" if ln.startswith("fileTimeSecs=") else ln) + "\n" for ln in meta_file.read_text().splitlines()))
+            return txt
+    return None
+
+
+def compress_original(b, rec, chunk_duration=0.05):
+    """replace <b>.bin by <b>.cbin + .ch (harness side: mtscomp directly)"""
+    import mtscomp
+    b = Path(b)
+    mtscomp.compress(b, out=b.with_suffix(".cbin"), outmeta=b.with_suffix(".ch"), sample_rate=rec.fs, n_channels=rec.nc, dtype=np.int16,
+                     chunk_duration=chunk_duration, check_after_compress=False)
+    b.unlink()
+    return b.with_suffix(".cbin")
